@@ -4,7 +4,8 @@
   Only property theorems, non-vacuity examples, negation witnesses and the axiom audit.
   Model: Model/Wrapper.lean (`run` with a fault plan: every internal step may fail, panic, or the process is
   killed there), Model/Journal.lean (readers of the private JSONL/JSON state, total on arbitrary text),
-  inventories Extracted/WrapperTables.lean (regenerated from /repo/src on every run).
+  Model/Snapshot.lean (working-log entry → snapshot-blob indirection; a blob read may fail; §6),
+  inventories Extracted/WrapperTables.lean, Extracted/SnapshotReads.lean (regenerated from /repo/src on every run).
 
   PARTIAL in the sense of DESIGN §10: fault points are the internal steps (git subprocess calls, file writes,
   state reads), not every instruction; a single step is atomic (filesystem atomicity of one `fs::write`);
@@ -14,6 +15,8 @@ import GitAiModel.Lemmas.Wrapper
 import GitAiModel.Model.Journal
 import GitAiModel.Props.C06
 import GitAiModel.Base.Chars
+import GitAiModel.Lemmas.Snapshot
+import GitAiModel.Extracted.SnapshotReads
 namespace GitAi.C07
 open GitAi GitAi.Wrapper GitAi.Cli GitAi.Journal GitAi.C06
 
@@ -539,6 +542,166 @@ example : (run tightKernel (modelHooks rdTolerant) commitArgv wTorn [none, none,
     (run tightKernel (modelHooks rdTolerant) commitArgv wTorn [none, none, none, none, none, none, none, some .fail]).status = 0 := by decide +kernel
 example : (run tightKernel (modelHooks rdTolerant) commitArgv wTorn [none, none, none, none, none, none, none, some .kill]).kind = .killedAfterGit := by decide +kernel
 
+/-! ## 6. Lost or damaged checkpoint snapshots can only lose attribution -/
+
+section Snapshots
+open GitAi.Snapshot GitAi.Extracted
+
+/-- **C07 snapshots.** A working-log entry (and an INITIAL record) names the content its line numbers describe by a
+    blob under `.git/ai/working_logs/<base>/blobs/`. For EVERY working log that is sound for the blobs as they were
+    written (`Sound`: the latest entry / INITIAL credit a session only with lines it reported — C03's invariant,
+    `Snapshot.sound_of_inv2`), EVERY damage to the blobs directory (`Damaged`: each blob reads as written, or truncated
+    at a line boundary, or not at all — deleted, unreadable, a directory, not UTF-8), EVERY content of the file at
+    commit time (`curRef` = its content address: the checkpoint stores it first, `heal`; `hca`: no two contents share
+    a name) and every HEAD content: whatever line the commit's note lists under session `s` is a line of the
+    committed file that the commit adds and that `s` itself reported. With the fallbacks the source has NOW
+    (`SnapshotReads.params`, regenerated on every run) a lost snapshot can only LOSE attribution. -/
+theorem lost_snapshot_never_invents (rep : Nat → Nat → Prop) (store₀ store : Store) (hd : Damaged store₀ store)
+    (wl : WLog) (hs : Sound rep store₀ wl) (head cur : List Nat) (curRef : Ref)
+    (hca : ∀ c, store₀ curRef = some c → c = cur) (i s : Nat)
+    (h : (i, s) ∈ commitNote SnapshotReads.params store wl head curRef cur) :
+    ∃ y, (i, y) ∈ Sys.enum1 cur ∧ y ∉ head ∧ rep s y := by
+  have hp : SnapshotReads.params = ⟨.empty, .drop⟩ := by decide
+  rw [hp] at h
+  obtain ⟨y, hm, hh, _, hc, he⟩ := mem_noteOf head cur _ i s h
+  exact ⟨y, hm, hh, effective_sound rep _ _ _ (hd.heal curRef cur) (hd.pendStore curRef cur) wl (hs.heal curRef cur hca) cur (i - 1) y s hc he⟩
+
+/-- the shape facts the model rests on, in the source extracted now: the fallback of the checkpoint's read of the
+    previous snapshot is the empty content; `read_initial_attributions` drops claims whose recorded snapshot is lost;
+    the "unchanged since the previous checkpoint" skip is where the model has it; `from_just_working_log` reads no
+    blob; every read site of a snapshot is one the model knows, none falls back to the current content, none
+    propagates the error (a lost blob never makes a checkpoint — hence the pre-commit hook — fail). -/
+theorem snapshot_reads_in_source :
+    SnapshotReads.params = ⟨.empty, .drop⟩ ∧ SnapshotReads.skipsWhenUnchanged = true ∧
+    SnapshotReads.effectiveReadsNoBlob = true ∧
+    (∀ s ∈ SnapshotReads.sites, s.role ≠ .unknown ∧ s.handler ≠ .other ∧ s.handler ≠ .propagate ∧ s.handler ≠ .current) ∧
+    (∃ s ∈ SnapshotReads.sites, s.role = .ckptPrevious ∧ s.handler = .empty) ∧
+    (∃ s ∈ SnapshotReads.sites, s.role = .initialValidate ∧ s.handler = .probe) := by decide
+
+/-- **link to C03.** In every valid history of Model/Sys.lean (the histories `Sys.no_invention` quantifies over), take
+    the working log as it stands at any point, damage its snapshots in any way, let the file have ANY content, and
+    commit: a line listed under session `s` has ghost author `s` — the conclusion of C03's `no_invention`, now with
+    corrupted private state. -/
+theorem lost_snapshot_never_invents_in_history (h0 : List Nat) (g0 : Nat → Sys.Author) (hnd : h0.Nodup)
+    (pre : List Sys.Op) (hv : Sys.ValidOps2 (Sys.cleanSpec h0 g0) pre) (store : Store) (cur : List Nat) (curRef : Ref)
+    (i s : Nat) :
+    let sp := Sys.specRun (Sys.cleanSpec h0 g0) pre
+    Damaged (sysStore sp.st) store → (∀ c, sysStore sp.st curRef = some c → c = cur) →
+    (i, s) ∈ commitNote SnapshotReads.params store (sysLog sp.st) sp.st.head curRef cur →
+    ∃ y, (i, y) ∈ Sys.enum1 cur ∧ y ∉ sp.st.head ∧ sp.g y = some s := by
+  intro sp hd hca h
+  have hinv : Sys.Inv2 sp := Sys.specRun_inv2 _ pre (Sys.cleanSpec_inv2 h0 g0 hnd) hv
+  exact lost_snapshot_never_invents (fun s y => sp.g y = some s) _ store hd _ (sound_of_inv2 sp hinv) _ cur curRef hca i s h
+
+/-- decidable soundness of a concrete record -/
+def entrySoundB (rep : Nat → Nat → Bool) : List Nat → List Sys.Author → Bool
+  | y :: ys, a :: as => (match a with | some s => rep s y | none => true) && entrySoundB rep ys as
+  | _, _ => true
+
+theorem entrySoundB_sound (rep : Nat → Nat → Bool) (c : List Nat) (attr : List Sys.Author)
+    (h : entrySoundB rep c attr = true) : EntrySound (fun s y => rep s y = true) c attr := by
+  induction c generalizing attr with
+  | nil => intro i y s hc; simp at hc
+  | cons x xs ih =>
+    cases attr with
+    | nil => intro i y s _ ha; simp at ha
+    | cons a as =>
+      simp only [entrySoundB, Bool.and_eq_true] at h
+      intro i y s hc ha
+      cases i with
+      | zero =>
+        simp at hc ha
+        subst hc ha
+        exact h.1
+      | succ n => exact ih as h.2 n y s (by simpa using hc) (by simpa using ha)
+
+/-- the seed's scenario. HEAD = lines 1 2; the agent (session 7) appended lines 10 11 and reported them: one entry, blob 1. -/
+def wlSeed : WLog := { entries := [⟨1, [none, none, some 7, some 7]⟩] }
+def storeSeed : Store := storeOf [(1, [1, 2, 10, 11])]
+/-- session 7 reported exactly the contents 10 and 11 -/
+def repSeed (s y : Nat) : Bool := s == 7 && (y == 10 || y == 11)
+
+theorem wlSeed_sound : Sound (fun s y => repSeed s y = true) storeSeed wlSeed := by
+  constructor
+  · intro e he
+    simp [wlSeed] at he
+    subst he
+    exact ⟨[1, 2, 10, 11], by simp [storeSeed, storeOf], entrySoundB_sound _ _ _ (by decide)⟩
+  · intro p hp; simp [wlSeed] at hp
+
+theorem nothing_left_damaged (store₀ : Store) : Damaged store₀ (storeOf []) := by
+  intro r c h; simp [storeOf] at h
+
+/-- **the seeded regression (witness, model).** Same sound working log, the blob deleted, a person replaces the agent's
+    two lines by lines 20 21 of their own and commits. With the fallback "the current content" the pre-commit checkpoint
+    sees "unchanged", writes no entry, and the note credits the person's lines 3-4 to session 7 — which never reported
+    them: `lost_snapshot_never_invents` is FALSE for that parameter. With the fallback of the source ("") the note is
+    empty (attribution lost, none invented); with the blob intact the note is empty as well (the person's lines are the
+    person's), and the agent's own lines are credited when they are still there — also with the blob deleted, when the
+    file is exactly as the agent left it: the checkpoint writes the content-addressed blob again (`heal`). Replayed on the binary by the snapshot
+    stream of vlib/props/c07.py (finds it on seeded/C07-seed1). -/
+theorem witness_current_fallback_invents :
+    commitNote ⟨.current, .drop⟩ (storeOf []) wlSeed [1, 2] 99 [1, 2, 20, 21] = [(3, 7), (4, 7)] ∧
+    repSeed 7 20 = false ∧ repSeed 7 21 = false ∧
+    commitNote ⟨.empty, .drop⟩ (storeOf []) wlSeed [1, 2] 99 [1, 2, 20, 21] = [] ∧
+    commitNote ⟨.empty, .drop⟩ storeSeed wlSeed [1, 2] 99 [1, 2, 20, 21] = [] ∧
+    commitNote ⟨.empty, .drop⟩ storeSeed wlSeed [1, 2] 1 [1, 2, 10, 11] = [(3, 7), (4, 7)] ∧
+    commitNote ⟨.empty, .drop⟩ (storeOf []) wlSeed [1, 2] 1 [1, 2, 10, 11] = [(3, 7), (4, 7)] := by decide
+
+/-- the negation for the excluded parameter, as a statement about the theorem itself -/
+theorem lost_snapshot_invents_with_current_fallback :
+    ¬ (∀ (store₀ store : Store), Damaged store₀ store → ∀ wl, Sound (fun s y => repSeed s y = true) store₀ wl →
+        ∀ head cur curRef, (∀ c, store₀ curRef = some c → c = cur) →
+        ∀ i s, (i, s) ∈ commitNote ⟨.current, .drop⟩ store wl head curRef cur →
+        ∃ y, (i, y) ∈ Sys.enum1 cur ∧ y ∉ head ∧ repSeed s y = true) := by
+  intro h
+  obtain ⟨y, hm, _, hr⟩ := h storeSeed (storeOf []) (nothing_left_damaged _) wlSeed wlSeed_sound [1, 2] [1, 2, 20, 21] 99
+    (by intro c hc; simp [storeSeed, storeOf] at hc) 3 7 (by rw [witness_current_fallback_invents.1]; decide)
+  have : y = 20 := by
+    simp [Sys.enum1, Sys.enumFrom] at hm
+    exact hm
+  subst this
+  exact absurd hr (by decide)
+
+/-- the same for INITIAL: the agent's lines 10 11 are pending (INITIAL, recorded content = blob 5). -/
+def wlPending : WLog := { pending := some ⟨5, [none, none, some 7, some 7]⟩ }
+def storePending : Store := storeOf [(5, [1, 2, 10, 11])]
+
+theorem wlPending_sound : Sound (fun s y => repSeed s y = true) storePending wlPending := by
+  constructor
+  · intro e he; simp [wlPending] at he
+  · intro p hp
+    simp [wlPending] at hp
+    subst hp
+    exact ⟨[1, 2, 10, 11], by simp [storePending, storeOf], entrySoundB_sound _ _ _ (by decide)⟩
+
+/-- **defect found by this theorem (witness, model; /repo as it was before the fix).** A claim of INITIAL whose recorded
+    snapshot was lost used to be applied to the file as it is now (`initial_snapshot.unwrap_or_else(|| current_content)`
+    in the checkpoint, `line_attributions_to_attributions(line_attrs, &file_content)` in `from_just_working_log`): the
+    person's lines 3-4 were credited to session 7. With the claim dropped when INITIAL is read (the source now) the note
+    is empty; with the snapshot intact the claim is carried over and dies with the agent's lines. -/
+theorem witness_initial_current_invents :
+    commitNote ⟨.empty, .current⟩ (storeOf []) wlPending [1, 2] 99 [1, 2, 20, 21] = [(3, 7), (4, 7)] ∧
+    commitNote ⟨.empty, .drop⟩ (storeOf []) wlPending [1, 2] 99 [1, 2, 20, 21] = [] ∧
+    commitNote ⟨.empty, .drop⟩ storePending wlPending [1, 2] 99 [1, 2, 20, 21] = [] ∧
+    commitNote ⟨.empty, .drop⟩ storePending wlPending [1, 2] 99 [1, 30, 2, 10, 11] = [(4, 7), (5, 7)] := by decide
+
+/-- non-vacuity of `lost_snapshot_never_invents`: hypotheses hold together with a non-empty note — the blob truncated
+    after its third line, a person inserts a line above: the agent's surviving line is still credited, at its new number. -/
+example : Damaged storeSeed (storeOf [(1, [1, 2, 10])]) ∧
+    commitNote SnapshotReads.params (storeOf [(1, [1, 2, 10])]) wlSeed [1, 2] 99 [1, 30, 2, 10, 11] = [(4, 7)] := by
+  refine ⟨?_, by decide⟩
+  intro r c h
+  by_cases hr : r = 1
+  · subst hr
+    simp [storeOf] at h
+    subst h
+    exact ⟨[1, 2, 10, 11], by simp [storeSeed, storeOf], ⟨[11], rfl⟩⟩
+  · simp [storeOf] at h
+    exact absurd h.1.symm hr
+
+end Snapshots
+
 #print axioms fault_dichotomy
 #print axioms fault_dichotomy_vs_plain_git
 #print axioms status_never_changed_after_git
@@ -550,5 +713,12 @@ example : (run tightKernel (modelHooks rdTolerant) commitArgv wTorn [none, none,
 #print axioms later_commands_work
 #print axioms modelHooks_wf
 #print axioms witness_O12_strict_reader_blocks_commit
+
+#print axioms lost_snapshot_never_invents
+#print axioms snapshot_reads_in_source
+#print axioms lost_snapshot_never_invents_in_history
+#print axioms witness_current_fallback_invents
+#print axioms lost_snapshot_invents_with_current_fallback
+#print axioms witness_initial_current_invents
 
 end GitAi.C07
